@@ -129,12 +129,19 @@ Definition refuses (acts : list action) : bool :=
 
 (* apply_default_as_fill_with (revision.rs, added by the fix for D6): a column that becomes NOT NULL
    and has a default in the baseline gets that default (as SQL text) as its fill value *)
+(* a bare enum label becomes a SQL string literal (follow-up fix: quote when the column is an enum, the
+   text is not blank, does not start with a quote and contains no parenthesis) *)
+Definition fill_of_default (t : column_type) (value : string) : string :=
+  let v := trim value in
+  if (match enum_variant_names t with Some _ => true | None => false end
+      && negb (String.eqb v "") && negb (starts_with "'" v) && negb (contains_char "("%char value))%bool
+  then "'" +++ v +++ "'" else value.
 Definition default_as_fill (baseline : schema) (a : action) : action :=
   match a with
   | ModifyColumnNullable table column false None =>
       match lookup_col baseline table column with
       | Some c => match c_default c with
-                  | Some d => ModifyColumnNullable table column false (Some (default_to_sql d))
+                  | Some d => ModifyColumnNullable table column false (Some (fill_of_default (c_type c) (default_to_sql d)))
                   | None => a
                   end
       | None => a
